@@ -116,6 +116,9 @@ impl DcpsDomainParticipant {
                 else {
                     return Err(DdsError::AlreadyDeleted);
                 };
+                subscriber
+                    .status_condition
+                    .remove_communication_state(StatusKind::DataOnReaders);
                 let sample_list = data_reader.read(
                     max_samples,
                     sample_states,
@@ -176,6 +179,9 @@ impl DcpsDomainParticipant {
         else {
             return Err(DdsError::AlreadyDeleted);
         };
+        subscriber
+            .status_condition
+            .remove_communication_state(StatusKind::DataOnReaders);
         let sample_list = data_reader.take(
             max_samples,
             sample_states,
@@ -238,6 +244,9 @@ impl DcpsDomainParticipant {
         else {
             return Err(DdsError::AlreadyDeleted);
         };
+        subscriber
+            .status_condition
+            .remove_communication_state(StatusKind::DataOnReaders);
         let sample_list = data_reader.read_next_instance(
             max_samples,
             previous_handle,
@@ -300,6 +309,9 @@ impl DcpsDomainParticipant {
         else {
             return Err(DdsError::AlreadyDeleted);
         };
+        subscriber
+            .status_condition
+            .remove_communication_state(StatusKind::DataOnReaders);
         let sample_list = data_reader.take_next_instance(
             max_samples,
             previous_handle,
